@@ -44,12 +44,14 @@ type LocksetSpec struct {
 }
 
 type StructSpec struct {
-	Pkg  string `json:"pkg"`
-	Kind string `json:"kind"`
-	Func string `json:"func"`
-	Arg  string `json:"arg,omitempty"`
-	Arg2 string `json:"arg2,omitempty"`
-	What string `json:"what"`
+	Pkg    string            `json:"pkg"`
+	Kind   string            `json:"kind"`
+	Func   string            `json:"func,omitempty"`
+	Arg    string            `json:"arg,omitempty"`
+	Arg2   string            `json:"arg2,omitempty"`
+	Sinks  []string          `json:"sinks,omitempty"`
+	Exempt map[string]string `json:"exempt,omitempty"`
+	What   string            `json:"what"`
 }
 
 type PropConfig struct {
